@@ -639,3 +639,65 @@ def rule_factored_readonly(mod, rep):
             key = "%s#%s/%s/eq=%s" % (f.name, kw["Stype"][4:], kw["trans"], kw["equed_in"])
             rep.check(not bad, "X-RO", key, "solve-only call leaves A, L, U and the permutations untouched (%d callees inspected)" % len(it.call_events),
                       "a solve-only call can modify a protected object: " + "; ".join(sorted(set(bad))[:4]), f.file, f.name)
+
+
+# ---------------------------------------------------------------- illegal mode values (C15)
+
+_WORK_ATOMS = {"gsequ", "laqgs", "colorder", "gstrf", "gstrs", "gsrfs", "X:=", "B*=", "pivotgrowth", "langs", "gscon", "A-store", "LUperm-store", "create_AA", "pthread_create", "queryspace"}
+
+
+def rule_expert_illegal(mod, rep):
+    """C15: one mode cell at a time is given values outside its documented set; the same partitioned propagation that enumerates the dispatch table must show that the
+    documented code is stored and that no computational atom is reachable"""
+    rep.rule("X-ILLEGAL", "p?gssvx: with every other mode cell legal, each of fact, trans, refact, usepr, lwork, A/B/X's Stype/Dtype/Mtype and (for fact = FACTORED) *equed is set in turn to "
+             "values outside its documented set (enumerators of the neighbouring types, -1, values above the largest enumerator incl. ones that share bits with legal ones): the "
+             "partitioned propagation must reach a store of the documented code -i into *info and must reach none of the computational atoms (scaling of B, X stores, ?gsequ, "
+             "?laqgs, sp_colorder, p?gstrf, ?gstrs, ?gsrfs, condition/growth estimators, thread creation)", floor=40)
+    e = mod.enums
+    for prec, f in fam(mod, "p?gssvx"):
+        rep.scope([f.name])
+        ko = f.pindex("superlumt_options"); kA = f.pindex("A"); kq = f.pindex("equed"); kB = f.pindex("B"); kX = f.pindex("X")
+        O = lambda fld: (("A", ko), ("f", "superlumt_options_t", fld))
+        SM = lambda k, fld: (("A", k), ("f", "SuperMatrix", fld))
+        pos = lambda n: f.cpos[f.pindex(n)]
+        stypes = [e[x] for x in ("SLU_NC", "SLU_NR", "SLU_SC", "SLU_SR", "SLU_NCP", "SLU_DN") if x in e]
+        dtypes = [e[x] for x in ("SLU_S", "SLU_D", "SLU_C", "SLU_Z") if x in e]
+        mtypes = [e[x] for x in ("SLU_GE", "SLU_TRLU", "SLU_TRUU", "SLU_TRL", "SLU_TRU", "SLU_SYL", "SLU_SYU", "SLU_HEL", "SLU_HEU") if x in e]
+        cases = []
+        cases.append(("equed", "FACTORED", (("A", kq),), [v for v in (-1, 4, 5, 6, 7, 8, 9, 13, 100) if v not in (e["NOEQUIL"], e["ROW"], e["COL"], e["BOTH"])], "equed"))
+        for fact in ("DOFACT", "FACTORED"):
+            cases.append(("fact", fact, O("fact"), [v for v in (-1, 3, 4, 5, 6, 7, 100) if v not in (e["DOFACT"], e["EQUILIBRATE"], e["FACTORED"])], "superlumt_options"))
+            cases.append(("trans", fact, O("trans"), [v for v in (-1, 3, 4, 5, 7, 100) if v not in (e["NOTRANS"], e["TRANS"], e["CONJ"])], "superlumt_options"))
+            cases.append(("refact", fact, O("refact"), [v for v in (-1, 2, 3, 5, 100) if v not in (e["NO"], e["YES"])], "superlumt_options"))
+            cases.append(("usepr", fact, O("usepr"), [v for v in (-1, 2, 3, 5, 100) if v not in (e["NO"], e["YES"])], "superlumt_options"))
+            cases.append(("lwork", fact, O("lwork"), [-2, -3, -100], "superlumt_options"))
+            cases.append(("A.Stype", fact, SM(kA, "Stype"), [v for v in stypes + [-1, 100] if v not in (e["SLU_NC"], e["SLU_NR"])], "A"))
+            cases.append(("A.Dtype", fact, SM(kA, "Dtype"), [v for v in dtypes + [-1, 100] if v != e[DT[prec]]], "A"))
+            cases.append(("A.Mtype", fact, SM(kA, "Mtype"), [v for v in mtypes + [-1, 100] if v != e["SLU_GE"]], "A"))
+            for nm, k in (("B", kB), ("X", kX)):
+                cases.append(("%s.Stype" % nm, fact, SM(k, "Stype"), [v for v in stypes + [-1, 100] if v != e["SLU_DN"]], nm))
+                cases.append(("%s.Dtype" % nm, fact, SM(k, "Dtype"), [v for v in dtypes + [-1, 100] if v != e[DT[prec]]], nm))
+                cases.append(("%s.Mtype" % nm, fact, SM(k, "Mtype"), [v for v in mtypes + [-1, 100] if v != e["SLU_GE"]], nm))
+        for (what, fact, cell, values, param) in cases:
+            for v in values:
+                part = XPart(mod, f, prec, "SLU_NC", "NOTRANS", fact, "NOEQUIL", 0, 0, "NOEQUIL", "OK")
+                part.cells[cell] = ("c", v)
+                part.args = {f.pindex("nprocs"): ("c", 2)}      # a legal thread count: the prologue is then decided by the cell under test
+                it = Interp(mod, f, part, atoms=XATOMS(prec), store_atoms=_x_store_atoms(f))
+                it.run()
+                got = set(tuple(_norm(x) for x in a) for a in it.atoms)
+                codes = set(a[1] for a in got if a[0] == "info:=" and isinstance(a[1], int) and a[1] < 0)
+                work = sorted(set(a[0] for a in got if a[0] in _WORK_ATOMS))
+                key = "%s#%s=%d/%s" % (f.name, what, v, fact)
+                if len(codes) > 1:
+                    # an earlier argument whose validity the partition does not fix (B's shape before X's) can be reported instead: *info is then not a constant at the
+                    # test that leaves the routine, and reachability of the computational part says nothing - only the code is required
+                    work = []
+                ok = (-pos(param) in codes) and not work
+                if ok:
+                    rep.ok("X-ILLEGAL", key, "code %d is stored, no computational atom is reachable" % -pos(param), f.file, f.name)
+                else:
+                    sites = [i.loc for i, a in it.events if a and a[0] in work]
+                    rep.fail("X-ILLEGAL", "%s#%s/%s" % (f.name, what, fact), "with %s = %d (illegal) and fact = %s the driver %s%s" % (
+                        what, v, fact, "does not report argument %d (codes that can be stored: %s)" % (pos(param), sorted(codes)) if -pos(param) not in codes else "reports the argument but",
+                        (" reaches %s" % work) if work else ""), sites[0] if sites else f.file, f.name, extra={"value": v, "fact": fact})
